@@ -5,3 +5,5 @@ CONSTANTS
   Tier = "quick"
 INVARIANT LawIdent
 INVARIANT LawRoundTripStatus
+INVARIANT LawOverride
+INVARIANT LawMatrixSame
